@@ -74,3 +74,61 @@ def named_candidate(o, msg):
     cd = o.record['cdict']
     hits = [cid for cid, d in cd.items() if d['name'] == name]
     return hits[0] if len(hits) == 1 else None
+
+
+# ------------------------------------------------------------------ history helpers
+
+def nonlog(o):
+    "[(index in record, decoded action)] without log entries"
+    return [(i, a) for i, a in enumerate(o.actions) if a['tag'] != 'log']
+
+
+def name2cid(o):
+    return {d['name']: cid for cid, d in o.record['cdict'].items()}
+
+
+TIE_RE = re.compile(r'^Break tie(?: by (prior stage|lot))? \(([^)]*)\): \[(.*)\] -> (.*)$')
+
+
+def parse_tie(o, msg):
+    "-> dict(how, reason, tied=[cid], chosen=cid) or None"
+    m = TIE_RE.match(msg)
+    if not m:
+        return None
+    n2c = name2cid(o)
+    try:
+        tied = [n2c[x] for x in m.group(3).split(', ')]
+        chosen = n2c[m.group(4)]
+    except KeyError:
+        return None
+    return dict(how=m.group(1), reason=m.group(2), tied=tied, chosen=chosen)
+
+
+SURPLUS_RE = re.compile(r'^(?:Surplus transferred|Transfer surplus): (.*) \(([^()]*)\)$')
+DEFEATED_RE = re.compile(r'^Transfer defeated: (.*)$')
+ELECTED_RE = re.compile(r'^Transfer elected: (.*) \(([^()]*)\)$')
+
+
+def parse_transfer(o, msg):
+    "-> ('surplus', [cid], amount text) | ('defeated', [cids], None) | ('elected', [cid], text) | None"
+    n2c = name2cid(o)
+    m = SURPLUS_RE.match(msg)
+    if m and m.group(1) in n2c:
+        return 'surplus', [n2c[m.group(1)]], m.group(2)
+    m = DEFEATED_RE.match(msg)
+    if m:
+        try:
+            return 'defeated', [n2c[x] for x in m.group(1).split(', ')], None
+        except KeyError:
+            return None
+    m = ELECTED_RE.match(msg)
+    if m and m.group(1) in n2c:
+        return 'elected', [n2c[m.group(1)]], m.group(2)
+    return None
+
+
+def reaches(ar, vote, quota):
+    "does a tally reach the quota, as the arithmetic in use defines it (> when the rules treat it as exact)"
+    if ar.exact_flag:
+        return ar.gt(vote, quota)
+    return ar.ge(vote, quota)
